@@ -16,7 +16,7 @@ def run(tier, rep, pool):
                           disable_jit=(i % 5 == 0), eager=True))
     results = list(pool.imap("vf.compiled_tasks", "c06c_task", tasks))
     _collect(rep, results, "compiled_half")
-    rep.section("compiled_drivers", drivers=["rollout (jit; lax.scan over generations when uniform)", "run x2 (eager)", "reset/step with overrides on odd steps (jit)", "run under jax.disable_jit (every 5th source)"],
+    rep.section("compiled_drivers", drivers=["rollout (jit; lax.scan over generations when uniform)", "rollout(carry_only=False) (jit; lax.scan over run)", "run x2 (eager)", "reset/step with overrides on odd steps (jit)", "run under jax.disable_jit (every 5th source)"],
                 counted_runs=sum(r["traces"] for r in results))
 
 
